@@ -29,6 +29,16 @@ CLAIMED = {
             'Trusted: Lean kernel, standard axioms, extract.py (AST walk for write sites), harness. Purity of the real export_pitch is established by the '
             'write-site inventory plus snapshots, not by the (pure-by-construction) model alone.',
             'DESIGN.md §5 C16'),
+    'C18': ('Lean 4 proof parametric in the kern parser; per-importer decision records and the createImporter chain regenerated from the AST on every run; kernel-decided record obligation; corpus correspondence',
+            'Theorem C18_dispatch: for the six non-kern headers and every unknown header, every non-empty cell text and every outcome of the kern '
+            'parser (token of any listener category, or an exception), import succeeds and yields the kern token itself when its category lies under the '
+            'shared structure and otherwise SimpleToken(verbatim text, own category); C18_barlines (identical barline detection), C18_shared_identical, '
+            'C18_verbatim, C18_empty_rejected; all_records_ok is the kernel-decided obligation that each importer record extracted from the source equals '
+            'this single rule. Tied by correspondence on a grammar-covering token corpus x 9 headers with the kern outcome supplied by a fresh '
+            'KernSpineImporter, and by whole documents imported under each header in turn.',
+            'Trusted: Lean kernel, standard axioms, extract.py (AST pattern extraction of ACCEPTED_CATEGORIES, polarity, fallbacks, dispatch chain), harness. '
+            'The ANTLR recogniser is a parameter of the theorem (nothing assumed beyond the set of categories the listener can build, which is generated and checked).',
+            'DESIGN.md §5 C18'),
 }
 
 NOT_YET = {}
